@@ -14,9 +14,13 @@ for f in sorted(glob.glob(os.path.join(ROOT, "props_meta.d", "*.json"))):
 props = [json.loads(l) for l in open(os.path.join(ROOT, "properties.jsonl"))]
 ids = [p["id"] for p in props]
 claimed = {}
+# only engines the lead has reviewed and run on the unchanged tree are registered as checks
+integrated = set(json.load(open(os.path.join(ROOT, "integrated.json")))["engines"])
+eng["engines"] = {n: e for n, e in eng["engines"].items() if n in integrated}
 for name, e in eng["engines"].items():
     for p in e["props"]:
-        claimed[p] = name
+        if p in {json.loads(l)["id"] for l in open(os.path.join(ROOT, "properties.jsonl"))}:
+            claimed[p] = name
 checks = []
 for pid in ids:
     if pid not in claimed:
